@@ -45,6 +45,28 @@ CLAIMS["C31"] = ("other", "reader/writer/size sequence agreement, guard budgetin
                  "the memcpy mechanism covered by the sequence rule; semantic validity beyond bounds is not decided.",
                  "Trusts clang's AST/preprocessor; bufread/bufwrite bodies (5 lines) are part of the TU.", "DESIGN.md 4/C31")
 
+CLAIMS["C49"] = ("translation_validation", "translation validation: the introspection metadata (evaluated by an ast-based literal evaluator, "
+                 "never imported) against the clang AST of include/mujoco/mujoco.h, both directions",
+                 "Every struct (66; 1774 fields: names, order, type trees, compiler-evaluated extents, anonymous members), enum (77; names, "
+                 "order, values) and function (537; return, parameter names and types, array-parameter extents re-read from the source range) "
+                 "in the metadata is compared with the declaration the C compiler sees, and every header declaration must be in the metadata "
+                 "or in the repo's own codegen exclusion list. This is the 'as the C compiler sees them' clause decided completely; the "
+                 "parse_type print-back round trip needs execution and is not decided.",
+                 "Trusts clang 14's AST; variadic '...' is not representable in the metadata (listed in evidence).", "DESIGN.md 4/C49")
+CLAIMS["C43"] = ("other", "cross-language agreement rules over Python ast (MJX) and the clang AST/headers (C): enumerator existence, mirror "
+                 "enums, NotImplementedError gates on the put_model call graph, attribute reads vs C struct members, sensor stage tables",
+                 "Necessary structural conditions for 'MJX reproduces the C engine built from this tree' and 'raises NotImplementedError "
+                 "otherwise': every C enumerator/function/field MJX names exists in this tree's headers, every MJX enum that omits C "
+                 "enumerators is gated on the put_model path, MJX computes each sensor type in the stage the C compiler assigns. "
+                 "Numerical agreement is not decided.",
+                 "Trusts clang's AST and Python's ast; warp/C++ back ends of MJX not analysed.", "DESIGN.md 4/C43")
+CLAIMS["C44"] = ("other", "table agreement between MJX state/field tables (Python ast, partial evaluation of the size function) and the C state "
+                 "switches / X-macro extents",
+                 "Decides that MJX get_state/set_state use the same element->field map, sizes and bit order as mj_getState/mj_setState for "
+                 "every signature, that every field copied by name between C and MJX objects exists in the C struct, and that make_data builds "
+                 "exactly the declared fields with the C shapes. jit/vmap transparency and values are not decided.",
+                 "Trusts clang's AST and Python's ast.", "DESIGN.md 4/C44")
+
 NOT_APPLICABLE = {
     "C06": "numerical identities of M, LTDL and RNE over real-valued runtime data; no clause is visible in code shape",
     "C07": "'J equals the derivative of position' and proper-rotation claims are numerical; joint-type exhaustiveness is decided under C05",
